@@ -214,7 +214,7 @@ impl Spec {
             match f {
                 Fci::Nack { seqs } => seqs.iter_mut().for_each(|q| *q = q.wrapping_mul(3).wrapping_add(1000)),
                 Fci::Fir { entries } => entries.iter_mut().for_each(|e| *e = (e.0 ^ 0x0101_0101, e.1.wrapping_add(1))),
-                Fci::Sli { entries } => entries.iter_mut().for_each(|e| *e = ((e.0 + 1) & 0x1fff, e.1, e.2 ^ 1)),
+                Fci::Sli { entries } => entries.iter_mut().for_each(|e| *e = (e.0.wrapping_add(1) & 0x1fff, e.1, e.2 ^ 1)),
                 Fci::Rpsi { bits, .. } => bits.iter_mut().for_each(|b| *b = !*b),
                 Fci::Pli => {}
             }
